@@ -9,7 +9,7 @@ TECH = "deterministic simulation with fault injection: "
 CLAIMED = {
     "C01": dict(level="exploration", ref="DESIGN.md 5/C01",
         text="Seeded search over (problem, solver config, fork-join schedule, pool layout, clock policy with stalls, hash order) tuples; every returned solution document is replayed leg by leg by an independent reference model (R-feas). A clean batch is evidence over the sampled space, not proof.",
-        note="Trusts the harness reference model of the pragmatic format semantics (DESIGN Appendix A, 9.7); leaf tasks atomic. User relations (derived from a first solve so that they are consistent, rules relation-vehicle/order/contiguity/missing), vicinity clustering, recharge stations, time-dependent matrices and required breaks are generated; tours with a clustered stop or a required break are judged on bookkeeping and time-independent rules only; known-finding domains (non-metric / randomly flagged matrices, reloads, shared resources, clustering, time-dependent routing) are listed in known_findings.json by rule and structural signature.",
+        note="Trusts the harness reference model of the pragmatic format semantics (DESIGN Appendix A, 9.7); leaf tasks atomic. User relations (derived from a first solve so that they are consistent, rules relation-vehicle/order/contiguity/missing), vicinity clustering, recharge stations, time-dependent matrices and required breaks are generated; tours with a clustered stop or a required break are judged on bookkeeping and time-independent rules only; one case in six is a solve seeded with an initial solution (the document of a first, possibly interrupted, solve read back through read_init_solution) whose answer goes through the same oracles; known-finding domains (non-metric / randomly flagged matrices incl. the observed consequence 'a tour of this vehicle drove a flagged leg during the run', reloads, shared resources, clustering, time-dependent routing, required breaks) are listed in known_findings.json by rule and structural signature, each with its frequency on the unchanged tree (a surge beyond 4x+15 cases is a violation).",
         tech=TECH + "full solves under a seeded plan-driven fork-join executor, simulated clock and seeded hash order; feasibility oracle over the returned document"),
     "C02": dict(level="exploration", ref="DESIGN.md 5/C02",
         text="Same simulated full solves; the returned document is checked as an exact partition of plan jobs over tours and the unassigned list, tours against fleet definition, markers against shift definition (R-part).",
@@ -23,17 +23,17 @@ CLAIMED = {
 
 CLAIMED["C04"] = dict(level="exploration", ref="DESIGN.md 5/C04",
     text="Seeded operator histories: a consistent individual is driven through scripts of 1..N steps over all shipped ruins, recreates, local operators and search operators under the simulated scheduler, clock (inner deadlines), hash order and optional counting quota; after every step the child is checked by R-inv (job bookkeeping, registry vs tours, tour well-formedness, hard constraints via the document oracles) and the parent digest must be unchanged.",
-    note="Operators built through public constructors with default-heuristic parameter ranges; ruin outputs are refreshed the way the next recreate does (InsertionContext::restore) before time rules are judged; one case in five runs on a problem with user relations (derived from a first solve, pinning rules judged after every step; a case whose relation tours as built by the solver already break a hard rule is outside the premise and discarded).",
+    note="Operators built through public constructors with default-heuristic parameter ranges; ruin outputs are refreshed the way the next recreate does (InsertionContext::restore) before time rules are judged; one case in five runs on a problem with user relations (derived from a first solve, pinning rules judged after every step; a case whose relation tours as built by the solver already break a hard rule is outside the premise and discarded). Operator constructor parameters are seeded from the ranges the JSON config admits; script steps include one search/diversify step of the shipped dynamic and static hyper-heuristics (their operator sets as shipped); one case in five without a random quota is an interruption enumeration: the identical deterministic script is re-executed with the quota turning true at the first, last and one inner poll of every polling step (<= 8 re-executions), each judged the same way.",
     tech=TECH + "operator-history search with per-step invariant checking against reference models; parent-unchanged digest")
 
 CLAIMED["C07"] = dict(level="fault_enumeration", ref="DESIGN.md 5/C07",
     text="Crash-point enumeration: for each sampled base (problem, builder configuration, schedule, clock, hash seed) the fault-free execution is run first; the identical deterministic execution is then repeated with the injected quota flipping at poll k (quick: all k <= 32, last 8, 24 random; thorough: every k in [0, N]) or with the simulated clock jumping past maxTime at read j. Every interrupted run must return Ok with a document that passes R-part/R-feas/R-stat, report <= maxGenerations, run <= maxGenerations+1 refinement rounds and apply no insertion after a flip during construction.",
-    note="Exhaustive over the crash-point coordinate only per enumerated base; bases are sampled. Crash = cooperative cancellation (no durable state exists). Leaf tasks atomic. One case in four is a liveness case: the LKH search operator (polls no quota) on generated Euclidean lattice instances read through vrp-scientific; a case which does not return within the per-case wall-clock budget (120 s quick / 900 s thorough, cases cost milliseconds) is the violation no-return - the only use of real time, and every check runs under this watchdog.",
+    note="Exhaustive over the crash-point coordinate only per enumerated base; bases are sampled. Crash = cooperative cancellation (no durable state exists). Leaf tasks atomic. One case in four is a liveness case: the LKH search operator (polls no quota) on generated Euclidean lattice instances read through vrp-scientific; a case which does not return within the per-case wall-clock budget (120 s quick / 900 s thorough, cases cost milliseconds) is the violation no-return - the only use of real time, and every check runs under this watchdog. Three bases in eight also pass a termination criterion of the caller through the public with_termination (at the pinned commit the builder ignores it: the configured limits stay in force, which is what the oracle demands).",
     tech=TECH + "crash-point enumeration over quota polls / clock reads of a deterministic re-execution; document oracles + in-run hyper-heuristic monitor")
 
 CLAIMED["C05"] = dict(level="exploration", ref="DESIGN.md 5/C05",
     text="Same operator histories as C04; at every hand-over of a complete search step, and after every applied insertion inside the construction loop (hook H3, 1 case in 4), every cached quantity readable through hook H4 (activity schedules, per-tour and per-solution state entries rendered bit-exactly) is compared with a canonical recomputation on a stripped twin (caches discarded, route level acceptance, per-feature refresh, solution level acceptance to the fixpoint); the fitness vector must equal the twin's.",
-    note="Entries of types outside the closed render list are counted as opaque and not compared; per-tour values recognised as order-dependent derived values (they differ between the first recomputation pass and the fixpoint: work-balance tour values) are not compared; per-solution aggregates only at hand-over.",
+    note="Entries of types outside the closed render list are counted as opaque and not compared; per-tour values recognised as order-dependent derived values (they differ between the first recomputation pass and the fixpoint: work-balance tour values) are not compared; per-solution aggregates only at hand-over. Private state types of vrp-core are rendered through hook H4 (render_private_state); hand-overs of interrupted steps (interruption enumeration of C04) are compared as well.",
     tech=TECH + "operator-history search with cache-vs-recomputation differential (stripped twin) at hand-overs and per applied insertion")
 
 CLAIMED["C15"] = dict(level="exploration", ref="DESIGN.md 5/C15",
@@ -54,17 +54,17 @@ NOT_APPLICABLE = {
 
 CLAIMED["C08"] = dict(level="exploration", ref="DESIGN.md 5/C08",
     text="Seeded operation histories (add, add_all batches, on_generation, select, ranked reads; 5..120 ops quick, ..600 thorough) on the three real populations (Greedy, Elitism, Rosomaxa) with generated sizes, selection sizes, rebalance memory and exploration ratio, under the simulated scheduler (Rosomaxa trains through the fork-join seam), worker RNG streams and hash order; after every operation the population is compared with a reference model that remembers every offered individual under an independent comparator: first ranked never worse than the best ever offered (singly or inside a batch), ranked() sorted, size bounds, select() a sub-multiset of what was offered and non-empty iff the population is, phases only forward.",
-    note="One case in ten is a crash-restart pair for the consequence clause: a (possibly clock-interrupted) simulated solve emits a document, it is read back through read_init_solution and seeds a second solve under an independent schedule/clock/hash/config seed; the returned individual must not be worse than the seeded one under Goal::total_order. Histories use the harness' total preorder over generated fitness vectors, so C09 is not assumed there; the restart verdict uses the repository's own goal on both sides.",
+    note="One case in ten is a crash-restart pair for the consequence clause: a (possibly clock-interrupted) simulated solve emits a document, it is read back through read_init_solution and seeds a second solve under an independent schedule/clock/hash/config seed; the best individual of the final population (judged before the solver's post-processing, rule population-lost-seeded) and the returned one (after it, rule restart-worse) must not be worse than the seeded one under Goal::total_order; the same deterministic execution is repeated through Solver::solve with 1..3 individuals requested from the strategy and must hand out the identical document. Histories use the harness' total preorder over generated fitness vectors, so C09 is not assumed there; the restart verdict uses the repository's own goal on both sides.",
     tech=TECH + "population operation-history search against a best-ever-offered reference model under seeded schedules, RNG streams and hash order")
 
 CLAIMED["C12"] = dict(level="fault_enumeration", ref="DESIGN.md 5/C12",
-    text="Positives: full solves under the simulator (seeded fork-join plans, clock policies and stalls, hash order, generated configs); every emitted solution which the independent reference oracle finds valid must be accepted by the bundled checker, also after any/sequence/strict relations derived from the solution itself are added to the problem. Negatives: for each such accepted solution single-breach mutants of 13 classes are enumerated at every applicable site (quick: a seeded subset of <= 60 sites per solution; thorough: all) and each mutant, once the reference oracle confirms it is invalid (relations and demanded breaks: by construction), must be rejected; a checker panic is neither.",
-    note="Exhaustive over sites x classes per stored solution in the thorough tier; solutions are sampled. Multi-task jobs get the unique place tags the checker documents it needs. One case in five is solved on a problem with user relations (derived from a first solve): the solver's answer must satisfy the checker's relation rules as well. Required breaks and clustering are not generated here (the reference oracle does not replay the times of such tours, so it could not decide whether a rejection is wrong), nor time-dependent matrices (the checker states that it does not implement them) and recharge stations; cost is not mutated (the checker documents that cost is ignored).",
+    text="Positives: full solves under the simulator (seeded fork-join plans, clock policies and stalls, hash order, generated configs); every emitted solution which the independent reference oracle finds valid must be accepted by the bundled checker, also after any/sequence/strict relations derived from the solution itself are added to the problem. Negatives: for each such accepted solution single-breach mutants of 13 classes (several variants each) are enumerated at every applicable site (quick: a seeded subset of <= 60 sites per solution; thorough: all) and each mutant, once the reference oracle confirms it is invalid (relations and demanded breaks: by construction), must be rejected; a checker panic is neither.",
+    note="Exhaustive over sites x classes per stored solution in the thorough tier; solutions are sampled. Multi-task jobs get the unique place tags the checker documents it needs. One case in five is solved on a problem with user relations (derived from a first solve): the solver's answer must satisfy the checker's relation rules as well. Required breaks and clustering are not generated here (the reference oracle does not replay the times of such tours, so it could not decide whether a rejection is wrong), nor time-dependent matrices (the checker states that it does not implement them) and recharge stations; cost is not mutated (the checker documents that cost is ignored); vehicle ids which contain each other are generated.",
     tech=TECH + "single-breach fault enumeration over solution documents emitted by simulated solves, bundled checker vs independent reference oracle")
 
 CLAIMED["C14"] = dict(level="exploration", ref="DESIGN.md 5/C14",
     text="Seeded operation scripts (1..60 quick, ..200 thorough) on a real Tour of a generated problem's actor (open or closed end, single and multi-task jobs): insert_at at legal positions, insert_last, remove, remove_activity_at, deep_copy and mutation of copies; then on a real Registry / RegistryContext: use_actor, free_actor, get_route, free_route, next_route, deep_copy, deep_slice and RouteContext::deep_copy. After every operation the structure equals a trivial reference model (vector of unique activity ids with their jobs; set of free actor ids): activity sequence, depot ends, job set = jobs of activities, counts, legs incl. the open-end leg, index/index_last/contains, offered <=> not in use, never handed out twice, copies unaffected by mutation of the original and vice versa.",
-    note="No clock or fault exists in this property; the simulator contributes the seeded history search, per-step model comparison, hash-order control (Registry::next iterates a HashSet of Arc addresses) and replay. Only the legal argument domain is generated.",
+    note="No clock or fault exists in this property; the simulator contributes the seeded history search, per-step model comparison, hash-order control (Registry::next iterates a HashSet of Arc addresses) and replay. Only the legal argument domain is generated, plus handles of a sub-job of a multi-task job wrapped as a single job (foreign handle).",
     tech=TECH + "operation-history search on Tour/Registry/RegistryContext against reference models under seeded hash order and heap addresses")
 
 CLAIMED["C18"] = dict(level="exploration", ref="DESIGN.md 5/C18",
